@@ -27,7 +27,7 @@ Pick(trav) == /\ stage = 0
               /\ (trav = "dw" => c.id = 1)                    \* depthwise volumes have IFM depth 1
               /\ \E acc \in {"U55_32", "U55_128"}, oblk \in BlockDepths, bits \in {8, 16}, dy \in {1, 2}, dx \in {1, 2} :
                     /\ (c.k[1] <= 4 /\ c.k[2] <= 4 => dy = dx)   \* no decomposition: dilation cannot matter
-                    /\ oblk % UBlocks(acc)[2] = 0
+                    /\ ~(oblk % UBlocks(acc)[2] # 0 /\ c.od > oblk)    \* whole micro-blocks, or one clipped block
                     /\ c' = Full(c, acc, oblk, trav, bits, dy, dx)
               /\ stage' = 1
 PickDepthFirst == Pick("depth")
